@@ -11,6 +11,7 @@ package host
 //@ spec func cleanID(x string) bool = !contains(x, "/") && !contains(x, str(1)) && !contains(x, str(2)) && !contains(x, str(3))
 
 // ---- identifier sequences (C15)
+//@ import strconv strconv
 
 //@ contract ParseIdentifier
 //@   pure
